@@ -109,6 +109,27 @@ pub fn replay(args: &[String]) {
                     ess_bad.push(json!({"case": brief(), "variant": v.name, "ess": x, "expected": e}));
                 }
             }
+            // the same draws as f64 / i64 values far from the origin (1e9: the spacing of f32 numbers there is 64): the
+            // diagnostics are shift-invariant, and the element type is the caller's, not f32
+            if v.name == "plain" {
+                let shape = (a.len(), a[0].len(), 1usize);
+                let a64 = ndarray::Array3::<f64>::from_shape_fn(shape, |(ci, t, _)| a[ci][t] as f64 + 1.0e9);
+                let ai = ndarray::Array3::<i64>::from_shape_fn(shape, |(ci, t, _)| a[ci][t] + 1_700_000_000);
+                for (ty, r) in [("f64 + 1e9", catch(|| RunStats::from(a64.view()))), ("i64 + 1.7e9", catch(|| RunStats::from(ai.view())))] {
+                    match r {
+                        Err(e) => sum_bad.push(json!({"case": brief(), "variant": ty, "runstats_panic": e})),
+                        Ok(rs) => {
+                            let same = |x: f32, y: f32| x == y || (x - y).abs() <= 1e-5 * y.abs().max(1e-30) || (x.is_nan() && y.is_nan());
+                            if !same(rs.rhat.max, rh[0]) && rhat_bad.len() < 20 {
+                                rhat_bad.push(json!({"case": brief(), "variant": ty, "runstats_rhat": rs.rhat.max, "same_draws_at_origin": rh[0]}));
+                            }
+                            if !same(rs.ess.max, es[0]) && ess_bad.len() < 20 {
+                                ess_bad.push(json!({"case": brief(), "variant": ty, "runstats_ess": rs.ess.max, "same_draws_at_origin": es[0]}));
+                            }
+                        }
+                    }
+                }
+            }
             // independence of the other parameters' values
             if v.p_total > 1 {
                 let arr2 = build(&a, v, 99);
